@@ -28,6 +28,8 @@ func MonitorFor(prop string) Monitor {
 		return MonC14{}
 	case "C15":
 		return MonC15{}
+	case "C09":
+		return MonMulti{Prop: "C09", Mons: []Monitor{MonC01{}, MonC02{}, MonC03{}, MonC05{}, MonC06{}, MonC11{}}}
 	case "C08":
 		return MonMulti{Prop: "C08", Mons: []Monitor{MonC01{}, MonC02{}, MonC05{}, MonC06{}}}
 	}
@@ -40,6 +42,19 @@ func Registry(prop, tier string) []UniverseDef {
 	add := func(u func() *Universe, name string) { out = append(out, UniverseDef{Name: name, Build: u}) }
 	if prop == "C08" {
 		return CollationRegistry(prop, tier)
+	}
+	if prop == "C09" {
+		return CompoundRegistry(tier)
+	}
+	if prop != "C04" {
+		// a few compound universes take part in every tree-level property
+		keep := map[string]bool{"compound[u64,u64,str]/LONG": true, "compound[u64,u64,str]/VALS": true, "compound[u8,str]/PRODUCT": true,
+			"compound[i16,f32]/PRODUCT": true, "compound[f64,u8,str]/PRODUCT": true, "compound[int,i8]/PRODUCT": true}
+		for _, d := range CompoundRegistry("thorough") {
+			if keep[d.Name] {
+				out = append(out, d)
+			}
+		}
 	}
 	if prop != "C03" {
 		defer func() {}()
